@@ -113,12 +113,16 @@ func maxDNSSize(network Network, ednsUDPSize, maxMsgSize uint16) (n int) {
 //   - EDNS0NSID
 //   - EDNS0EXPIRE
 //
-// All other options will be removed from the resulting array.
+// All other options will be removed from the resulting array.  The NSID option
+// is returned empty, the way it is sent in a well-formed query (RFC 5001,
+// section 2.1), so that the data that a client may have put into it isn't
+// reflected and doesn't count against the size limit of the response.
 func filterUnsupportedOptions(o []dns.EDNS0) (supported []dns.EDNS0) {
 	for _, opt := range o {
 		switch code := opt.Option(); code {
-		case dns.EDNS0NSID,
-			dns.EDNS0EXPIRE:
+		case dns.EDNS0NSID:
+			supported = append(supported, &dns.EDNS0_NSID{Code: dns.EDNS0NSID})
+		case dns.EDNS0EXPIRE:
 			supported = append(supported, opt)
 		}
 	}
